@@ -56,7 +56,7 @@ def recipe(c: Check):
             continue
         break
     cc = c.cov.get("coq_counters", {}).get("limit", {})
-    if st and c.harness_ok and (cc.get("NSPLIT", 0) == 0 or cc.get("NWAITING", 0) == 0):
+    if st and c.harness_ok and (cc.get("NSPLIT", 0) == 0 or cc.get("NWAITING", 0) == 0 or cc.get("NFRACTION", 0) == 0):
         c.broken.append(dict(kind="sanity", name="limit driver never reached the split-write / waiting-reservation branches",
                              detail=str(cc)))
     # replay of the repaired F-C01a: real client udp/sudp proxies over a counting connection
@@ -67,9 +67,11 @@ def recipe(c: Check):
     if st and (cc.get("NAGED", 0) == 0 or cc.get("NFIRST", 0) == 0):
         c.broken.append(dict(kind="sanity", name="vhostmux driver never used a routed connection older than the muxer timeout / never let the backend speak first", detail=str(cc)))
     # tcpMux on: write-and-close against a receiver that drains through a 128 KB/s limit (both directions)
+    # ... and: stcp visitor behind a relay that batches frps->visitor traffic, backend speaks first, stream idle for
+    # 10.5 s (longer than the visitor's handshake read deadline), then a second banner
     st = c.run_driver("drain", 0, shards=1, timeout=q(c.tier, 120, 300))
     cc = c.cov.get("coq_counters", {}).get("drain", {})
-    if st and cc.get("NDRAIN", 0) < 2:
+    if st and (cc.get("NDRAIN", 0) < 2 or cc.get("NVISITOR", 0) < 4):
         c.broken.append(dict(kind="sanity", name="drain driver did not complete both directions", detail=str(cc)))
     # F-C01c (recorded): evaluated in Coq over TODAY's translated yamux configuration.  The known-finding key stands
     # for exactly the recorded pair (StreamCloseTimeout 300 000 ms, window 6 291 456 B, i.e. truncation below 20 972 B/s):
@@ -137,7 +139,10 @@ def recipe(c: Check):
              "sniffing timeout, head sent in random segments, routed connection used at age 0 and at age > timeout: bytes read from it compared "
              "with the SharedConn model, writes towards the user must succeed; tcpmux with a backend that speaks first and the CONNECT answer's write held back 0/120 ms: the user's "
              "stream must be answer ++ greeting. drain driver: tcpMux on (keepalive 1 s), 600 000 bytes written and closed at once against a receiver "
-             "draining through a 128 KB/s limit (upload/client-side, download/server-side): complete, identical, clean EOF. udpclose driver: Close() calls reaching the underlying work "
+             "draining through a limit configured as \"0.125MB\" (upload/client-side, download/server-side): complete, identical, clean EOF, and throttled "
+             "(elapsed vs the rate the model derives from the configured string); stcp visitor behind a relay that batches frps->visitor traffic, backend "
+             "speaks first (302-byte banner must arrive intact), stream idle 10.5 s, second banner must arrive; real types.NewBandwidthQuantity on ~85 strings "
+             "(fractions, spaces, bad units) against Model.Bandwidth.bw_parse. udpclose driver: Close() calls reaching the underlying work "
              "connection of real client udp/sudp proxies with and without a client-side limit. distinct = distinct case text; non-trivial = non-empty payload",
         assumptions=["cipher / compressor / transports are lawful codecs and reliable pipes (explicit hypotheses codec_lawful in C01_mirror_transparent; "
                      "satisfiable: C01_example_codecs)",
